@@ -548,11 +548,13 @@ package machine
 //@ func (rr *DefaultRelationsResolver) NewAutoMutation() (mut *Mutation, names S)
 //@   props C07 C11
 //@   requires nn:    rr.Transition != nil && rr.Transition.Machine != nil
+//@   requires names: SchemaInv(rr.Transition.Machine)
 //@   ensures  set:   forall x string :: mem(names, x) <==> AutoWanted(rr.Transition.Machine, x)
 //@   ensures  nodup: nodup(names)
 //@   ensures  none:  (mut == nil) <==> (len(names) == 0)
 //@   ensures  kind:  mut != nil ==> fresh(mut) && mut.IsAuto && mut.Type == MutationAdd && !mut.IsCheck && mut.QueueTick == 0
 //@   ensures  order: forall i, j int :: 0 <= i && i < j && j < len(names) ==> index(rr.Transition.Machine.stateNames, names[i]) < index(rr.Transition.Machine.stateNames, names[j])
-//@   loop 1 invariant set:   forall x string :: mem(toAdd, x) <==> (visited1[x] && AutoWanted(m, x))
+//@   loop 1 invariant set:   forall x string :: mem(toAdd, x) <==> ((exists j int :: 0 <= j && j < idx1 && m.stateNames[j] == x) && AutoWanted(m, x))
 //@   loop 1 invariant nodup: nodup(toAdd)
+//@   loop 1 invariant order: (forall i, j int :: 0 <= i && i < j && j < len(toAdd) ==> index(m.stateNames, toAdd[i]) < index(m.stateNames, toAdd[j])) && (forall i int :: 0 <= i && i < len(toAdd) ==> index(m.stateNames, toAdd[i]) < idx1)
 //@   loop 2 invariant none:  forall j int :: 0 <= j && j < idx2 ==> !mem(m.schema[m.activeStates[j]].Remove, s)
